@@ -69,6 +69,7 @@ impl Engine for PartEngine {
                 }
             }
             ("snd", 3) => sender_blocks(n[0], n[1], n[2], o),
+            ("fti", 4) => fti_reconstruct(n[0], n[1], n[2], n[3], o),
             ("rcv", 5) => receiver_blocks(n[0], n[1] != 0, n[2], n[3], n[4], o),
             ("rq", 3) => raptor_reconstruct(true, n[0], n[1], n[2], o),
             ("rp", 3) => raptor_reconstruct(false, n[0], n[1], n[2], o),
@@ -119,6 +120,52 @@ impl ObjectWriter for RecWriter {
     }
 }
 
+/// C07 (6) at full field range, without running a codec: an EXT_FTI built by the real packet builder from an OTI
+/// with the given (F = l, T = e, Z = z) is parsed back by the real parser; observation `ok <B'>`.
+/// scheme 6 = RaptorQ (F < 2^40, Z < 2^8), 1 = Raptor (F < 2^48, Z < 2^16).
+fn fti_reconstruct(scheme: u64, l: u64, e: u64, z: u64, o: &mut Oracle) -> String {
+    let r = guarded(move || -> Result<u64, String> {
+        let kind = if scheme == 6 { 1 } else { 2 };
+        let oti = hk::make_oti(scheme as u8, 0, 64, e as u16, 0, Some((kind, z as u32, 1, 1)), true).ok_or("make_oti")?;
+        let pkt = hk::PktFields {
+            payload: vec![0u8; 4],
+            transfer_length: l,
+            esi: 0,
+            sbn: 0,
+            toi: 1,
+            fdt_id: None,
+            cenc: flute::core::lct::Cenc::Null,
+            inband_cenc: false,
+            close_object: false,
+            source_block_length: 1,
+            sender_current_time: false,
+        };
+        let data = hk::new_alc_pkt(&oti, &0u128, 1, &pkt, false, std::time::UNIX_EPOCH);
+        let p = flute::core::alc::parse_alc_pkt(&data).map_err(|e| format!("{:?}", e))?;
+        let po = p.oti.as_ref().ok_or("no FTI")?;
+        if p.transfer_length != Some(l) {
+            return Err(format!("transfer length {:?}", p.transfer_length));
+        }
+        Ok(po.maximum_source_block_length as u64)
+    });
+    match r {
+        Ok(Ok(b2)) => {
+            // oracle: B' = ceil(ceil(F/Z)/T) in u128
+            let want = ceil128(ceil128(l as u128, z as u128), e as u128);
+            // (B' is a u32 in flute; it fits whenever Z = N(B, L, E) for a 32-bit B, since then B' <= B)
+            if want < (1u128 << 32) && b2 as u128 != want {
+                o.fail("fti-reconstruct", &format!("parser reconstructs B'={} from F={} T={} Z={}, expected {}", b2, l, e, z, want));
+            }
+            format!("ok {}", b2)
+        }
+        Ok(Err(_)) => "ERR".to_string(),
+        Err(loc) => {
+            o.fail("fti-panic", &format!("FTI build/parse panics at {}", loc));
+            "PANIC".to_string()
+        }
+    }
+}
+
 fn content(l: u64) -> Vec<u8> {
     (0..l).map(|i| (i * 7 + 3) as u8).collect()
 }
@@ -150,7 +197,12 @@ fn receiver_blocks(scheme: u64, inband: bool, b: u64, l: u64, e: u64, o: &mut Or
             if guard > 200_000 {
                 return Err("too many packets".into());
             }
-            let _ = rx.push(&ep, &data, now);
+            let r = rx.push(&ep, &data, now);
+            if std::env::var("VERIF_DEBUG").is_ok() {
+                if let Err(e) = r {
+                    eprintln!("push error: {:?}", e);
+                }
+            }
         }
         drop(rx);
         let s = std::mem::take(&mut *shared.borrow_mut());
@@ -196,13 +248,17 @@ fn mk_sender(oti: &flute::core::Oti, l: u64) -> Result<flute::sender::Sender, St
     use flute::sender::*;
     let cfg = Config { toi_initial_value: Some(1), ..Default::default() };
     let ep = flute::core::UDPEndpoint::new(None, "224.0.0.1".to_string(), 3400);
-    let mut sender = Sender::new(ep, 1, oti, &cfg);
+    // the FDT travels under a plain No-Code default OTI (its length is not under our control: an unaligned or tiny FDT
+    // block under Raptor/RS is C08's business, not C07's); the object carries the OTI under test as a per-object override
+    let fdt_oti = flute::core::Oti::new_no_code(1400, 64);
+    let mut sender = Sender::new(ep, 1, &fdt_oti, &cfg);
+    let tc = TransferConfig::builder().oti(oti.clone()).build();
     let obj = ObjectDesc::create_from_buffer(
         content(l),
         "application/octet-stream",
         &url::Url::parse("file:///x").unwrap(),
         false,
-        Default::default(),
+        tc,
     )
     .map_err(|e| format!("{:?}", e))?;
     sender.add_object(0, obj).map_err(|e| format!("{:?}", e))?;
@@ -213,11 +269,11 @@ fn mk_sender(oti: &flute::core::Oti, l: u64) -> Result<flute::sender::Sender, St
 /// C07 (5a): the (SBN, number of source packets, bytes) structure of the packets a REAL sender emits for an
 /// object of `l` bytes under No-Code (b, e); observation `ok k0:len0 k1:len1 ...` in SBN order.
 fn sender_blocks(b: u64, l: u64, e: u64, o: &mut Oracle) -> String {
-    let r = guarded(move || -> Result<Vec<(u64, u64)>, String> {
+    let r = guarded(move || -> Result<Vec<(u64, u64, u64)>, String> {
         let oti = flute::core::Oti::new_no_code(e as u16, b as u16);
         let mut sender = mk_sender(&oti, l)?;
         let now = std::time::UNIX_EPOCH + std::time::Duration::from_secs(1_700_000_000);
-        let mut blocks: Vec<(u64, u64)> = Vec::new();
+        let mut blocks: Vec<(u64, u64, u64)> = Vec::new();
         let mut guard = 0;
         while let Some(data) = sender.read(now) {
             guard += 1;
@@ -235,10 +291,12 @@ fn sender_blocks(b: u64, l: u64, e: u64, o: &mut Oracle) -> String {
             }
             let sbn = pid.sbn as usize;
             while blocks.len() <= sbn {
-                blocks.push((0, 0));
+                blocks.push((0, 0, 0));
             }
             blocks[sbn].0 += 1;
             blocks[sbn].1 += len;
+            // position-sensitive checksum of the payload bytes: sum of byte values (content is byte i = (7i+3) mod 256)
+            blocks[sbn].2 += data[pkt.data_payload_offset..].iter().map(|x| *x as u64).sum::<u64>();
         }
         Ok(blocks)
     });
@@ -248,10 +306,12 @@ fn sender_blocks(b: u64, l: u64, e: u64, o: &mut Oracle) -> String {
             let (al, asm, i, n) = rfc(b as u128, l as u128, e as u128);
             let mut ok = bl.len() as u128 == n;
             let mut first: u128 = 0;
-            for (s, (k, len)) in bl.iter().enumerate() {
+            for (s, (k, len, sum)) in bl.iter().enumerate() {
                 let kk = if (s as u128) < i { al } else { asm };
-                let want = ((first + kk) * e as u128).min(l as u128) - (first * e as u128).min(l as u128);
-                if *k as u128 != kk || *len as u128 != want {
+                let lo = (first * e as u128).min(l as u128);
+                let hi = ((first + kk) * e as u128).min(l as u128);
+                let wsum: u64 = (lo as u64..hi as u64).map(|i| ((i * 7 + 3) as u8) as u64).sum();
+                if *k as u128 != kk || *len as u128 != hi - lo || *sum != wsum {
                     ok = false;
                 }
                 first += kk;
@@ -260,8 +320,8 @@ fn sender_blocks(b: u64, l: u64, e: u64, o: &mut Oracle) -> String {
                 o.fail("snd-ne-rfc", &format!("sender blocks {:?} differ from the RFC 5052 partition {:?}", bl, (al, asm, i, n)));
             }
             let mut s = "ok".to_string();
-            for (k, len) in bl {
-                s.push_str(&format!(" {}:{}", k, len));
+            for (k, len, sum) in bl {
+                s.push_str(&format!(" {}:{}:{}", k, len, sum));
             }
             s
         }
@@ -411,6 +471,37 @@ pub fn run(ctx: &mut Ctx, eng: &mut dyn Engine) {
         }
     }
     ctx.sample("part bp 3 23 4 -> ok 3 3 0 2 ; part bl 3 3 0 23 4 1 -> ok 11".to_string());
+    // RaptorQ / Raptor FTI round trip: B' reconstructed by the real parser, whole field ranges, Z = N(B,L,E) and arbitrary Z
+    ctx.case("fti");
+    let nf = if ctx.tier_thorough { 200_000 } else { 20_000 };
+    for i in 0..nf {
+        let rq = rng.bool();
+        let e = match rng.below(4) {
+            0 => *rng.pick(&[1u64, 2, 4, 1400, 1428, 65535]),
+            _ => 1 + rng.bits(16) as u64 % 65535,
+        };
+        let l = if rq { 1 + rng.bits(40) as u64 % ((1u64 << 40) - 1) } else { 1 + rng.bits(48) as u64 % ((1u64 << 48) - 1) };
+        let zmax: u64 = if rq { 255 } else { 65535 };
+        let z = match rng.below(3) {
+            0 => 1 + rng.below(zmax),
+            1 => *rng.pick(&[1u64, 2, 46, 47, 255]),
+            _ => {
+                // Z = N(B, L, E) for a random B, when it fits the field
+                let b = 1 + rng.bits(20) as u64;
+                let n = rfc(b as u128, l as u128, e as u128).3;
+                if n == 0 || n > zmax as u128 { 1 + rng.below(zmax) } else { n as u64 }
+            }
+        };
+        let obs = ctx.step(eng, &format!("part fti {} {} {} {}", if rq { 6 } else { 1 }, l, e, z));
+        ctx.evaluations += 1;
+        if z > 1 {
+            ctx.nontrivial(&format!("fti {} {} {} {}", rq, l, e, z));
+        }
+        ctx.count(if rq { "fti-raptorq" } else { "fti-raptor" });
+        if i < 2 {
+            ctx.sample(format!("part fti {} {} {} {} -> {}", if rq { 6 } else { 1 }, l, e, z, obs));
+        }
+    }
     // real sender: block structure of emitted packets (No-Code) and RaptorQ/Raptor B reconstruction
     ctx.case("sender");
     let ns = if ctx.tier_thorough { 3000 } else { 300 };
@@ -462,8 +553,7 @@ pub fn run(ctx: &mut Ctx, eng: &mut dyn Engine) {
         if scheme == 1 && b + 2 > 255 {
             continue;
         }
-        // the FDT itself (~1.1 kB of XML) travels under the same OTI: schemes limited to 255 blocks need B*E*255 to hold it
-        if (scheme == 1 || scheme == 3) && b * e * 255 < 2000 {
+        if (scheme == 1 || scheme == 3) && q.3 > 255 {
             continue;
         }
         let obs = ctx.step(eng, &format!("part rcv {} {} {} {} {}", scheme, inband as u8, b, l, e));
@@ -480,7 +570,10 @@ pub fn run(ctx: &mut Ctx, eng: &mut dyn Engine) {
         let rq = rng.bool();
         let e = *rng.pick(&[4u64, 8, 16, 64]);
         let b = rng.range(4, 64);
-        let l = rng.range(1, 40 * b * e).min(60_000);
+        let l = match rng.below(3) {
+            0 => (rng.range(1, 12) * b * e).min(60_000 / (b * e) * (b * e)).max(b * e), // exact multiples of one full block
+            _ => rng.range(1, 40 * b * e).min(60_000),
+        };
         // keep every block at k >= 4 symbols (raptor-code rejects smaller blocks: owned by C08) and Z <= 255
         let q = rfc(b as u128, l as u128, e as u128);
         if q.1 < 4 || q.3 > 255 {
